@@ -383,6 +383,12 @@ func anchorStmt(fd *ast.FuncDecl, name string) ast.Stmt {
 					if id, ok := l.(*ast.Ident); ok && id.Name == name {
 						hit = true
 					}
+					// field targets are named recv.field
+					if se, ok := l.(*ast.SelectorExpr); ok {
+						if id, ok := se.X.(*ast.Ident); ok && id.Name+"."+se.Sel.Name == name {
+							hit = true
+						}
+					}
 				}
 			case *ast.ValueSpec:
 				for _, id := range a.Names {
